@@ -9,8 +9,8 @@ def run(prog, rep, tier):
                   "the decoder of its DWARF 5 class (string/reference/signed/unsigned/address/flag/location/ranges/attribute-dependent) or reports "
                   "it; F5: DW_ATE_* -> signed/unsigned/bool; F4: the 13 enumerated attributes are rendered in the constant family DWARF assigns them "
                   "(joined with the writer tables' prefixes); E1: each of the 82 calls to a fallible libdw/libdwfl/libelf function has its result "
-                  "compared, tested, returned or stored before use (two exemption rows with reasons); F6: the flags that summarise the enumerator scan "
-                  "(signedness from the forms of all enumerators) are monotone inside the loop; G2/G3: `@AT_x` and `attribute ... value` decode an "
+                  "compared, tested, returned or stored before use (two exemption rows with reasons); F7: signedness of an enumeration constant from the forms of "
+                  "*all* enumerators (handle_at_dependent_value interpreted on abstract type graphs with mixed-form enumerators); G2/G3: `@AT_x` and `attribute ... value` decode an "
                   "attribute in the DIE (hence unit: file table, ranges base, references) it was read from, on abstract DIE graphs with one- and two-hop "
                   "specification/abstract_origin chains; X1: operand table of location operations against DWARF 5 (see C17).")
     rep.not_decided = ("the decoded values themselves (bytes of strings, target of references, boundary values, signedness taken from the type "
@@ -31,7 +31,6 @@ def run(prog, rep, tier):
     import r_tables
     apply(rep, "X1", "location operations are reported with the operands DWARF 5 gives their opcode", r_tables.x1(prog), 150)
     apply(rep, "F7", "signedness and domain of DW_AT_const_value follow the DIE's type chain (handle_at_dependent_value interpreted on abstract type graphs)", r_dw.f7(prog, tier), 1)
-    apply(rep, "F6", "scan-summary flags deciding signedness are only ever set inside the scan", r_dw.f6(prog), 2)
     apply(rep, "F8", "block-form constants of 1/2/4/8 bytes are decoded as the data form of that size (handle_encoding_block interpreted)", r_dw.f8(prog), 1)
     import r_pure as _rp
     apply(rep, "Q5", "libdw's sticky error indicator is never used to decide without being cleared first (CFG must-pass-through)", _rp.q5(prog), 2)
